@@ -67,7 +67,7 @@ namespace
                 ",\"temperature models\":[{\"model\":\"plate model\",\"max depth\":1e5,\"spreading velocity\":0.05,\"ridge coordinates\":[[[-5e5,-1e6],[-5e5,1e6]]]}],"
                 "\"composition models\":[{\"model\":\"tian water content\",\"compositions\":[0],\"min depth\":0,\"max depth\":6e3,\"density\":3000,\"lithology\":\"MORB\",\"initial water content\":1,\"cutoff pressure\":16,\"operation\":\"replace\"}]},"
                 "{\"model\":\"subducting plate\",\"name\":\"sl\",\"interpolation\":\"global\",\"coordinates\":[[2e5,0],[2.2e5,2e5],[2e5,4e5]],\"dip point\":[9e5,2e5],\"segments\":[{\"length\":3e5,\"thickness\":[8e4],\"angle\":[45]}],"
-                "\"temperature models\":[{\"model\":\"mass conserving\",\"density\":3300,\"spreading velocity\":0.05,\"subducting velocity\":0.04,\"ridge coordinates\":[[[-5e5,-1e6],[-5e5,1e6]]],\"reference model name\":\"plate model\"}],"
+                "\"temperature models\":[{\"model\":\"mass conserving\",\"density\":3300,\"spreading velocity\":0.05,\"subducting velocity\":0.04,\"ridge coordinates\":[[[-5e5,-1e6],[-5e5,1e6]]],\"reference model name\":\"plate model\",\"apply spline\":true,\"number of points in spline\":5}],"
                 "\"composition models\":[{\"model\":\"tian water content\",\"compositions\":[1],\"density\":3300,\"min distance slab top\":0,\"max distance slab top\":2e4,\"lithology\":\"peridotite\",\"initial water content\":2,\"cutoff pressure\":10}]}"
                 "]}");
     return b;
@@ -119,6 +119,18 @@ namespace
             if (unsupported) { Cand c; c.kind = "tree/unsupported-option-value/" + key; c.text = dump(d); c.note = "base " + std::to_string(bi) + ": " + p + " := \"x\""; c.expect = MUST_REJECT; out.push_back(c); continue; }
             out.push_back({"tree/replace", dump(d), "base " + std::to_string(bi) + ": " + p + " := " + REPL[r]});
           }
+        // an entry declared as an unsigned (32-bit) integer: the same value plus 2^32 does not fit and must be rejected, not read modulo 2^32
+        {
+          static const std::set<std::string> UINT32 = {"coordinate", "number of points in spline"};
+          const rapidjson::Value *orig = rapidjson::Pointer(p.c_str()).Get(d0);
+          if (UINT32.count(key) && orig && orig->IsUint())
+            {
+              rapidjson::Document d; d.CopyFrom(d0, d.GetAllocator());
+              rapidjson::Value nv; nv.SetUint64(static_cast<uint64_t>(orig->GetUint()) + 4294967296ull);
+              rapidjson::Pointer(p.c_str()).Set(d, nv);
+              Cand c; c.kind = "tree/unsigned-integer-beyond-32-bits/" + key; c.text = dump(d); c.note = "base " + std::to_string(bi) + ": " + p + " := its value + 2^32"; c.expect = MUST_REJECT; out.push_back(c);
+            }
+        }
         // delete
         {
           rapidjson::Document d; d.CopyFrom(d0, d.GetAllocator());
